@@ -245,6 +245,8 @@ type Obligation struct {
 	Raw string
 	// ThoroughOnly: needs more solver time than the quick tier allows; the quick tier lists it as unchecked.
 	ThoroughOnly bool
+	// Replay: how to rebuild the inputs of the verified function from a model (nil: no generic replay)
+	Replay *ReplayPlan
 }
 
 func (c *Ctx) Fresh(prefix, srt string) Term {
